@@ -36,4 +36,11 @@ def c05(tier):
     ns = [1, 2, 3, 4] if tier == "quick" else [1, 2, 3, 4, 5, 6, 7, 8]
     us = tab_units("ind_step", ns, 120 if tier == "quick" else 900)
     tw = [twin(u) for u in us if u["params"]["n"] == 2]
-    return us + tw
+    L = 4 if tier == "quick" else 6
+    bm = []
+    for kind in ("name", "prefix", "datatype"):
+        for n in (1, 2, 3):
+            for f in range(n + 2):
+                bm.append(U(f"bmc:{kind}:n{n}:L{L}:f{f}", "tab", "bmc", dict(kind=kind, n=n, L=L - 1, fixed=[f]), timeout=300))
+    tw += [twin(bm[0]), twin(bm[-1])]
+    return us + bm + tw
